@@ -1,7 +1,7 @@
 """C15 — hydroelastic contact polygons (structural clauses)."""
 from . import scopes
 from ..core.report import DOMAIN_D
-from ..rules import buffers, hydro, sides, unpack, misc2
+from ..rules import generic2, buffers, hydro, sides, unpack, misc2
 
 HY = "distance3d.hydroelastic_contact."
 MODS = {HY + "_tetrahedron_intersection", HY + "_halfplanes", HY + "_forces", HY + "_interface", HY + "_barycentric_transform"}
@@ -27,9 +27,12 @@ def run(idx, rep, tier):
     sides.r_sides(idx, rep, [m.name for m in idx.lib_modules() if "hydroelastic" in m.name], floor=20)
     hydro.r_invalidate(idx, rep)      # stale per-body caches (tetrahedra points, barycentric transforms) put polygons outside their tetrahedra
     misc2.r_dupcond(idx, rep, [m.name for m in idx.lib_modules()], floor=3)
+    generic2.r_indextruth(idx, rep, [m.name for m in idx.lib_modules()], floor=6)
     misc2.r_stiffness(idx, rep)
     misc2.r_stiffness_chain(idx, rep)
     hydro.r_contactforce(idx, rep)
+    hydro.r_sharedpose(idx, rep)      # two bodies sharing one pose array: the second query sees a frozen relative pose, polygons leave their tetrahedra
+    hydro.r_hpcover(idx, rep)      # a polygon that is not clipped by one half-plane leaves its tetrahedron and over-estimates the force on one side only
     misc2.r_hplayout(idx, rep)
     misc2.r_anglesort(idx, rep)
     unpack.r_unpack(idx, rep, floor=6)
